@@ -94,6 +94,21 @@ def _server_run(params, residue):
                     k.transmit(("127.0.0.1", 5353), fsrc, rng.choice([b"\x41", b"\x41", b"\x41\x05", bytes(rng.getrandbits(8) for _ in range(rng.randint(1, 11)))]))
                     k.run(k.now + 3000)
                 fwd.got[:] = []
+            if fwd is not None and i % 5 == 4:
+                # somebody's complete query with an OPT record for a foreign name lingers in the buffer; then a query for a name of
+                # the same length that announces additional records (or answers, or two questions) and ends right behind its question
+                # - or one or two bytes further.  What is handed to the local DNS server follows from that datagram alone.
+                nm = [bytes(rng.choice(b"abcdefghijklmnopqrstuvwxyz") for _ in range(rng.choice([3, 7]))), b"example", b"org"]
+                k.transmit(("10.77.0.9", 4100), (scen.SERVER_IP, 53), proto.build_query(rng.getrandbits(16) or 1, nm, rng.choice([1, 28, 16]), edns0=True))
+                k.run(k.now + 3000)
+                nm2 = [bytes(rng.choice(b"abcdefghijklmnopqrstuvwxyz") for _ in range(len(nm[0]))), b"example", b"org"]
+                full = proto.build_query(rng.getrandbits(16) or 1, nm2, rng.choice([1, 28, 16]), edns0=True)
+                qend = 12 + len(proto.encode_name(nm2)) + 4
+                cnt = rng.choice([(1, 0, 0, 1), (1, 0, 0, 2), (1, 1, 0, 0), (2, 0, 0, 0), (1, 0, 1, 1)])
+                d = full[:4] + struct.pack(">HHHH", *cnt) + full[12:qend + rng.choice([0, 0, 1, 2, 3])]
+                k.transmit(("10.77.0.10", 4101), (scen.SERVER_IP, 53), d)
+                k.run(k.now + 3000)
+                fwd.got[:] = []
             # "another client" first leaves a long datagram in the buffer ...
             long_frame = proto.make_frame(Bc.tun_ip, "10.9.0.1", 5000 + i, rng.choice([100, 150]), "random", rng)
             Bc.up_seq = (Bc.up_seq + 1) & 7
